@@ -73,10 +73,11 @@ where
         let mut identifiers = Vec::with_capacity(locations.len());
 
         // First activate slots that are already allocated.
-        while let Some(index) = self.free.pop_front() {
-            if locations.is_empty() {
-                break;
-            }
+        while !locations.is_empty() {
+            let index = match self.free.pop_front() {
+                Some(index) => index,
+                None => break,
+            };
             let slot =
                 // SAFETY: indices within `self.free` are guaranteed to be within the bounds of
                 // `self.slots`.
